@@ -267,6 +267,12 @@ def rule_c(ctx):
         at = fw.atoms(ext[0][1]["args"][1])
         ctx.check(has_call(at, "WrappedBlock::<T>::take_trailing_fragments"), "C14-C",
                   "flush_wrapping:extend(trailing-fragments)", ext[0][1]["span"], fw.id, "")
+        # order: the block's lines are emitted first, the markers that trail them are queued afterwards (queued
+        # before, add_line would put them in front of text that precedes their element)
+        emits = fw.calls(lambda cd, t: ends(cd, "SubRenderer::<D>::extend_lines") or ends(cd, "SubRenderer::<D>::add_line"))
+        ctx.check(bool(emits) and all(fw.dominates(ebb, ext[0][0]) for ebb, _t in emits), "C14-C",
+                  "flush_wrapping:lines-before-trailing-markers", ext[0][1]["span"], fw.id,
+                  "pending_frags.extend(..) must come after the flushed block's lines were added")
         errs = drops.error_blocks(fw)
         tk = fw.calls(lambda cd, t: ends(cd, "WrappedBlock::<T>::take_trailing_fragments"))
         if tk:
